@@ -896,6 +896,11 @@ func genGapNet(r *vproto.Rng) *netCase {
 		c.links = append(c.links, link{[]geom.Point{S, pt(S.X, S.Y+L), M2}, sp},
 			link{[]geom.Point{pt(M2.X+g2, M2.Y), pt(T.X, T.Y+L), T}, sp})
 	}
+	if opt == "D" { // speeds are irrelevant to the optimum: a faster link may follow the link with the gap (mutation N15)
+		for i := range c.links {
+			c.links[i].speed = math.Ldexp(1, r.Range(-4, 4))
+		}
+	}
 	for i := range c.links { // random orientation
 		if r.Bool() {
 			p := c.links[i].pts
